@@ -12,7 +12,11 @@ cd $wt
 mkdir -p $(dirname $place) && cp "$demo" $place
 echo "== demo WITHOUT the change"
 go test -vet=off -count=1 "$@" 2>&1 | tail -3
-git apply "$patch" || { echo "PATCH DOES NOT APPLY"; exit 3; }
+if ! git apply "$patch" 2>/dev/null; then
+  # written for an earlier tree: three-way merge; the rebased patch is left next to the original
+  git apply -3 "$patch" >/dev/null 2>&1 && ! git diff --name-only --diff-filter=U | grep -q . || { echo "PATCH DOES NOT APPLY"; exit 3; }
+  git reset -q; git diff > "$patch.rebased"; echo "(rebased: $patch.rebased)"
+fi
 echo "== build with the change"; go build ./... && echo build-ok
 echo "== demo WITH the change"
 go test -vet=off -count=1 "$@" 2>&1 | tail -5
